@@ -77,6 +77,12 @@ class LogicalSolver:
 class CustomNot(OperatorNot):
     symbol: str = Sign.NEGATE
 
+    def operate_unary(self, tokens):
+        right = tokens.get_right()
+        if isinstance(right, (bool, np.bool_)):   # result of an equality comparison
+            right = BooleanType(right)
+        tokens.put_right(right.logical_not())
+
 class CustomAnd(OperatorAnd):
     
     def operate_binary(self, tokens):
